@@ -42,6 +42,12 @@ var PosSchemaFaults = []string{
 	`type Bad12 { x: Int x: Int }`,
 	`type Bad13 implements Named { id: ID! name: String }`,
 	`type Bad14 { x(a: Int @skip(if: true)): Int }`,
+	// faults that involve a definition which may sit in another source
+	`extend type Pet { id: ID! }`,
+	`extend enum Kind { DOG }`,
+	`extend interface Node { id: ID! }`,
+	`extend input Filter { name: String }`,
+	`extend union Result = Pet`,
 }
 
 // PosQueries: documents that make every validation rule report at least one error against
